@@ -33,6 +33,8 @@ def relevant(pid, case, d):
     if pid == "C09":
         return op in PARAM_OPS and (k in ("sets", "out") or (k == "post" and (path.startswith("grp") or path.startswith("hdr"))))
     if pid == "C10":
+        if op == "SetParam" and k in ("post", "sets") and len(case["op"].get("p", {}).get("sets", [])) >= 2:
+            return True          # sequences of typed sets exist to exercise refused sets: the Parameter must be as it was before the refused one
         return k == "unchanged" or (k == "out" and d.get("exp") != "ok" and d.get("act") == "ok") or \
                (k == "post" and case.get("actout", "ok") != "ok")
     if pid == "C11":
@@ -45,11 +47,16 @@ def relevant(pid, case, d):
     if pid == "C01":
         return op == "Reload" and gen == 0 and (k in ("post", "out") or k == "bytes")
     if pid == "C03":
-        return op == "Reload" and k == "bytes"
+        # the header block of a saved file is the in-memory header written verbatim: a header field that differs from the specification's
+        # after any call is what the next save writes (the replay keeps one path per specification state, so the save that follows this
+        # very history may be represented by another path)
+        return (op == "Reload" and k == "bytes") or (k == "post" and re.match(r"hdr\.(npts|meas|nanalogs|first|last|nframes|perframe|rate)$", path) is not None)
     if pid == "C04":
         return op == "Reload" and gen >= 1 and k in ("post", "out", "bytes")
     if pid == "C14":
-        return op == "Reload" and k in ("purity", "repeat")
+        # definedness: the writer model is a function of the object's content only, so a byte that differs from it is not determined by the
+        # content (the harness saves over an existing longer file and into a heap whose contents vary between cases)
+        return op == "Reload" and k in ("purity", "repeat", "bytes")
     if pid == "C13":
         return k == "crash"
     return False
@@ -201,10 +208,13 @@ def shape_consts(tier):
 
 def run_shape(pid, tier, t0):
     ez = report_replay.ez = vlib.build("plain")
-    res = vlib.replay_slice("MC_Shape.tla", "MC_Shape.cfg", shape_consts(tier), ez, tag="shape", timeout=3000)
+    # quick: TLC explores and checks every transition, a random quarter of them is replayed (each with its whole path); thorough: all
+    res = vlib.replay_slice("MC_Shape.tla", "MC_Shape.cfg", shape_consts(tier), ez, tag="shape", timeout=9000, sample_k=4 if tier == "quick" else 1)
     results = [("MC_Shape", res)]
     if pid == "C10":      # refused column adders over three frames with gaps (index up to count+2) come from the frame-centred slice
-        results.append(("MC_Frames", vlib.replay_slice("MC_Frames.tla", "MC_Frames.cfg", frames_consts("quick"), ez, tag="frames", timeout=6000)))
+        results.append(("MC_Frames/columns", vlib.replay_slice("MC_Frames.tla", "MC_Frames.cfg", frames_consts("quick"), ez, tag="frames", timeout=9000, sample_k=6 if tier == "quick" else 2)))
+        # refused parameter calls: unnamed, untyped (existing / new group), refused typed sets after accepted ones
+        results.append(("MC_Params", vlib.replay_slice("MC_Params.tla", "MC_Params.cfg", {"MaxVals": 2, "Deep": "FALSE"} if tier == "quick" else {"MaxVals": 3, "Deep": "TRUE"}, ez, tag="params", timeout=9000)))
     return report_replay(pid, results, tier, t0, assumptions=SHAPE_ASSUME, trace=True)
 
 def frames_configs(tier):
@@ -212,18 +222,18 @@ def frames_configs(tier):
     (gaps) in-place edits and point columns over data sets with up to two empty frames created by one extension (index up to count+2);
     (columns) point and channel columns (two channel names) over the same data sets, without in-place edits"""
     if tier == "quick":
-        return [("MC_Frames/callers", {"NTags": 2, "NCallers": 1, "NChan": 1, "MaxFrames": 2, "IdxSlack": 2, "WithEdits": "TRUE"}),
-                ("MC_Frames/gaps", {"NTags": 0, "NCallers": 0, "NChan": 1, "MaxFrames": 3, "IdxSlack": 3, "WithEdits": "TRUE"}),
-                ("MC_Frames/columns", {"NTags": 0, "NCallers": 0, "NChan": 2, "MaxFrames": 3, "IdxSlack": 3, "WithEdits": "FALSE"})]
-    return [("MC_Frames/callers", {"NTags": 2, "NCallers": 1, "NChan": 1, "MaxFrames": 3, "IdxSlack": 2, "WithEdits": "TRUE"}),
-            ("MC_Frames/gaps", {"NTags": 0, "NCallers": 1, "NChan": 1, "MaxFrames": 3, "IdxSlack": 3, "WithEdits": "TRUE"}),
-            ("MC_Frames/columns", {"NTags": 0, "NCallers": 0, "NChan": 2, "MaxFrames": 3, "IdxSlack": 3, "WithEdits": "TRUE"})]
+        return [("MC_Frames/callers", {"NTags": 2, "NCallers": 1, "NChan": 1, "MaxFrames": 2, "IdxSlack": 2, "WithEdits": "TRUE"}, 2),
+                ("MC_Frames/gaps", {"NTags": 0, "NCallers": 0, "NChan": 1, "MaxFrames": 3, "IdxSlack": 3, "WithEdits": "TRUE"}, 5),
+                ("MC_Frames/columns", {"NTags": 0, "NCallers": 0, "NChan": 2, "MaxFrames": 3, "IdxSlack": 3, "WithEdits": "FALSE"}, 6)]
+    return [("MC_Frames/callers", {"NTags": 2, "NCallers": 1, "NChan": 1, "MaxFrames": 3, "IdxSlack": 2, "WithEdits": "TRUE"}, 4),
+            ("MC_Frames/gaps", {"NTags": 0, "NCallers": 0, "NChan": 1, "MaxFrames": 3, "IdxSlack": 3, "WithEdits": "TRUE"}, 1),
+            ("MC_Frames/columns", {"NTags": 0, "NCallers": 0, "NChan": 2, "MaxFrames": 3, "IdxSlack": 3, "WithEdits": "FALSE"}, 1)]
 def frames_consts(tier):
     return frames_configs("quick")[2][1]
 
 def run_frames(pid, tier, t0):
     ez = report_replay.ez = vlib.build("plain")
-    results = [(name, vlib.replay_slice("MC_Frames.tla", "MC_Frames.cfg", consts, ez, tag="frames", timeout=9000)) for name, consts in frames_configs(tier)]
+    results = [(name, vlib.replay_slice("MC_Frames.tla", "MC_Frames.cfg", consts, ez, tag="frames", timeout=9000, sample_k=sk)) for name, consts, sk in frames_configs(tier)]
     return report_replay(pid, results, tier, t0, assumptions=SHAPE_ASSUME, trace=(pid == "C06"))
 
 def run_params(pid, tier, t0):
@@ -560,11 +570,16 @@ def run_builds(pid, tier, t0):
     work = vlib.scratch("c19")
     # corpus 1: specification transitions (object construction, save/load, bit-pattern files), with the spec's expected states and bytes
     edge_files = []
+    os.environ["SAMPLEK"] = "8" if tier == "quick" else "2"      # the frame / column slice is sampled (dump_edges inherits the environment)
+    p0 = os.path.join(work, "edges.columns")
+    s0 = vlib.dump_edges("MC_Frames.tla", "MC_Frames.cfg", frames_consts("quick"), p0)
+    os.environ["SAMPLEK"] = "1"
     plan = [("MC_IO.tla", "MC_IO.cfg", io_consts("quick"), "io"), ("MC_Format.tla", "MC_Format.cfg", {"Variant": '"patterns"'}, "patterns")]
     if tier != "quick":
         plan += [("MC_Format.tla", "MC_Format.cfg", {"Variant": '"layout"', "Full": "FALSE" if tier == "quick" else "TRUE"}, "layout"), ("MC_Params.tla", "MC_Params.cfg", {"MaxVals": 2, "Deep": "FALSE"}, "params"),
                  ("MC_Lookup.tla", "MC_Lookup.cfg", {"NPts": 2, "MaxFrames": 1}, "lookup")]
-    states = transitions = 0
+    states = s0["distinct"]; transitions = sum(1 for _ in open(p0))
+    edge_files.append(("columns", p0))
     for mod, cfg, consts, tag in plan:
         p = os.path.join(work, "edges.%s" % tag)
         s = vlib.dump_edges(mod, cfg, consts, p)
@@ -715,19 +730,20 @@ def run_memsafe(pid, tier, t0):
     os.environ.update(SAN_ENV)
     ez = report_replay.ez = vlib.build("asan")
     results = []
-    plan = [("MC_Shape.tla", "MC_Shape.cfg", shape_consts("quick"), "shape"),
-            ("MC_IO.tla", "MC_IO.cfg", io_consts("quick"), "io"),
-            ("MC_Params.tla", "MC_Params.cfg", {"MaxVals": 2, "Deep": "FALSE"}, "params"),
-            ("MC_Lookup.tla", "MC_Lookup.cfg", {"NPts": 2, "MaxFrames": 1}, "lookup")]
-    if tier != "quick":
-        plan += [("MC_Frames.tla", "MC_Frames.cfg", frames_consts("quick"), "frames"),
-                 ("MC_IO.tla", "MC_IO.cfg", io_consts("thorough"), "io2")]
+    q = tier == "quick"
+    # (module, cfg, constants, tag, 1/k of the transitions replayed in quick): every replayed case executes its whole path from Init
+    plan = [("MC_Shape.tla", "MC_Shape.cfg", shape_consts("quick"), "shape", 16),
+            ("MC_IO.tla", "MC_IO.cfg", io_consts("quick"), "io", 2),
+            ("MC_Format.tla", "MC_Format.cfg", {"Variant": '"layout"', "Full": "FALSE"}, "layout", 2),
+            ("MC_Params.tla", "MC_Params.cfg", {"MaxVals": 2, "Deep": "FALSE"}, "params", 8),
+            ("MC_Lookup.tla", "MC_Lookup.cfg", {"NPts": 2, "MaxFrames": 1}, "lookup", 8),
+            ("MC_Frames.tla", "MC_Frames.cfg", frames_consts("quick"), "frames", 32)]
+    if not q:
+        plan += [("MC_IO.tla", "MC_IO.cfg", io_consts("thorough"), "io2", 1), ("MC_Format.tla", "MC_Format.cfg", {"Variant": '"patterns"', "Full": "FALSE"}, "patterns", 1)]
     stderr = ""
-    for mod, cfg, consts, tag in plan:
-        # quick: every 8th transition (each case still executes its whole path from Init, so nearly every transition runs under
-        # the sanitizers as a prefix of some sampled case); thorough: every transition
-        res = vlib.replay_slice(mod, cfg, consts, ez, tag=tag, timeout=6000, keep_mod=8 if tier == "quick" else 1)
-        results.append((mod[:-4], res)); stderr += res.get("stderr", "")
+    for mod, cfg, consts, tag, sk in plan:
+        res = vlib.replay_slice(mod, cfg, consts, ez, tag=tag, timeout=9000, sample_k=sk if q else max(1, sk // 8))
+        results.append((mod[:-4] + "/" + tag, res)); stderr += res.get("stderr", "")
     rc = report_replay(pid, results, tier, t0, level="exploration", assumptions=[
         "sensor: clang ASan (alloc-dealloc-mismatch on) + UBSan (no recover) + _GLIBCXX_ASSERTIONS; a report aborts the replay case",
         "histories are the transitions of the TLA+ slices; look-ups, refused calls and destruction included"],
@@ -803,6 +819,32 @@ def do_replay(pid, path):
         e = case["event"]
         evs, raw = vlib.run_ops(ez, [dict(o, post=0) for o in case["build_ops"]] + [{"op": "FaultSweep", "label": e["obj"], "kinds": [] if e["kind"] == "fsize" else [e["kind"]], "ks": [e["k"]] if e["kind"] == "fsize" else []}])
         log(raw[-2000:])
+        return 0
+    if case.get("kind") == "trace":
+        ez = vlib.build("plain")
+        ops = [e["args"] for e in case["events"]]
+        evs, raw = vlib.run_ops(ez, ops)
+        work = vlib.scratch("rp"); tp = os.path.join(work, "t.ndjson")
+        with open(tp, "w") as f:
+            for ev in evs:
+                rec = {"e": ev["e"], "args": ev["args"], "out": ev["out"]}
+                for kk in ("post", "sets", "res"):
+                    if kk in ev: rec[kk] = ev[kk]
+                f.write(json.dumps(rec) + "\n")
+        ok, at, summ, out = vlib.validate_trace("EzTrace.tla", "EzTrace.cfg", tp)
+        log("trace of %d calls re-recorded from the current tree: %s by EzTrace.tla%s" % (len(evs), "accepted" if ok else "REJECTED", "" if ok else " (first rejected line %s)" % at))
+        log("(rejection at the time of the violation: %s)" % case.get("rejection"))
+        return 0
+    if case.get("kind") == "limit":
+        ez = vlib.build("plain")
+        if isinstance(case.get("ops"), list):
+            evs, raw = vlib.run_ops(ez, [{"op": "Reset"}] + [dict(o, post=0) for o in case["ops"]] + [{"op": "Save", "path": "lim.c3d", "o": 1, "post": 0}, {"op": "Load", "o": 2, "path": "lim.c3d", "post": 0}])
+            log("save: %s, load: %s" % (evs[-2]["out"], evs[-1]["out"]))
+        log("event at the time of the violation: %s" % json.dumps(case["event"]))
+        return 0
+    if case.get("kind") in ("threads", "corpus"):
+        log(json.dumps({kk: vv for kk, vv in case.items() if kk != "stderr"})[:3000]); log(case.get("stderr", "")[-3000:])
+        log("re-run the check itself to reproduce (schedules are seeded by VERIF_SEED).")
         return 0
     raise Infra("unknown replay kind in %s" % path)
 
